@@ -118,6 +118,7 @@ def run_schedule(period, P, sched, offset, release, res):
                 return out
             t_ret = ev[1]
             expect = max(grid, t_call)
+            res.visit(P, b, "late" if t_call > grid else ("exact" if t_call == grid else "early"), min(k, 4))
             obs.append((t_call - t0, t_ret - t0))
             if t_ret < grid:
                 out.append((f"returned-before-grid-point:{'after-overrun' if any(x >= P for x in sched[:k-1]) else 'no-overrun'}", f"wait #{k} returned at {t_ret - t0} us after t0, before the grid point {k * P}; bodies {sched[:k]}"))
@@ -419,7 +420,6 @@ def main(tier, seed):
         for d in pool.run("mc.props.c16", "work_extra", extra, seed=seed):
             res.merge(d)
     res.bounds.update(long_run_iterations={"1000us": 1300 if tier == "quick" else 5000, "others": 400 if tier == "quick" else 2000}, two_object_variants=PAIR_VARIANTS)
-    res.states = len(PERIODS) * 6 * maxlen
     res.bounds.update(schedule_length=maxlen, periods_us=[p[1] for p in PERIODS], body_durations=["0", "P/2", "P-1us", "P", "P+1us", "2.5P"], schedules=nsched)
     rule = (
         "for each period in {1 ms, 5 ms, 20 ms, 1/64 s}: every sequence of loop-body durations of the stated length over {0, P/2, P-1us, P, P+1us, 2.5P} "
